@@ -1,0 +1,18 @@
+// +build verif
+
+// Verification hook (build tag "verif" only): run the real agent session loop
+// on a caller-supplied connection, so that the type-length-value protocol can
+// be driven over an in-memory transport instead of the encrypted one.
+package agent
+
+import (
+	"net"
+
+	"github.com/honeytrap/honeytrap/listener"
+)
+
+// VerifServe runs the session loop (serv) of listener l on conn and returns
+// when the session ends. l must have been created by New.
+func VerifServe(l listener.Listener, conn net.Conn) {
+	l.(*agentListener).serv(Conn2(conn))
+}
